@@ -6,10 +6,14 @@ import (
 	"context"
 	"encoding/json"
 	"fmt"
+	"io"
+	"net/http"
+	"net/http/httptest"
 	"os"
 	"path/filepath"
 	"runtime/debug"
 	"strings"
+	"sync"
 	"testing"
 	"time"
 
@@ -444,6 +448,104 @@ func TestVerif_C08(t *testing.T) {
 				w.multi.StreamBlocks(mb, &vkBlockStream{vkStreamBase: hangUp()})
 			})
 		}
+	}
+	// ---- a proxy for unknown methods / failed requests is configured (ListenerConfig): what the upstream answers is
+	// an input too. A loopback upstream serves one of a small alphabet of answers; another target is unreachable.
+	{
+		upstreamAnswers := []struct {
+			name   string
+			status int
+			body   string
+		}{
+			{"version-object", 200, `{"jsonrpc":"2.0","id":1,"result":{"solana-core":"1.17.0","feature-set":1}}`},
+			{"result-null", 200, `{"jsonrpc":"2.0","id":1,"result":null}`},
+			{"result-string", 200, `{"jsonrpc":"2.0","id":1,"result":"1.17.0"}`},
+			{"result-array", 200, `{"jsonrpc":"2.0","id":1,"result":[]}`},
+			{"result-empty-object", 200, `{"jsonrpc":"2.0","id":1,"result":{}}`},
+			{"result-number", 200, `{"jsonrpc":"2.0","id":1,"result":7}`},
+			{"error-object", 200, `{"jsonrpc":"2.0","id":1,"error":{"code":-32601,"message":"Method not found"}}`},
+			{"no-result-no-error", 200, `{"jsonrpc":"2.0","id":1}`},
+			{"not-json", 200, `<html>upstream</html>`},
+			{"json-null", 200, `null`},
+			{"json-array", 200, `[]`},
+			{"empty-body", 200, ``},
+			{"500-page", 500, `<html>internal error</html>`},
+			{"truncated-json", 200, `{"jsonrpc":"2.0","id":1,"result":{"solana-core":"1.1`},
+		}
+		var umu sync.Mutex
+		cur := 0
+		upstream := httptest.NewServer(http.HandlerFunc(func(w http.ResponseWriter, r *http.Request) {
+			umu.Lock()
+			a := upstreamAnswers[cur]
+			umu.Unlock()
+			w.Header().Set("Content-Type", "application/json")
+			w.WriteHeader(a.status)
+			io.WriteString(w, a.body)
+		}))
+		dead := httptest.NewServer(http.HandlerFunc(func(w http.ResponseWriter, r *http.Request) {}))
+		deadURL := dead.URL
+		dead.Close() // nothing listens there any more
+		var bodies []string
+		for _, m := range methods {
+			bodies = append(bodies,
+				fmt.Sprintf(`{"jsonrpc":"2.0","id":1,"method":%q,"params":[%d]}`, m, validSlot),
+				fmt.Sprintf(`{"jsonrpc":"2.0","id":1,"method":%q,"params":["garbage"]}`, m),
+				fmt.Sprintf(`{"jsonrpc":"2.0","id":1,"method":%q}`, m))
+		}
+		bodies = append(bodies, `{"jsonrpc":"2.0","id":1,"method":"getBlock","params":[5]}`, `{"jsonrpc":"2.0","id":1,"method":"getTransaction","params":["`+validSig+`"]}`, `[]`, `{}`)
+		type pworld struct {
+			name string
+			h    func(*fasthttp.RequestCtx)
+		}
+		var pws []pworld
+		for _, pfr := range []bool{false, true} {
+			for _, wi := range []int{0, 1} {
+				lc := &ListenerConfig{ProxyConfig: &ProxyConfig{Target: upstream.URL, Headers: map[string]string{"X-Verif": "1"}, ProxyFailedRequests: pfr}}
+				pws = append(pws, pworld{fmt.Sprintf("%s+proxy(failed=%v)", worlds[wi].name, pfr), newMultiEpochHandler(worlds[wi].multi, lc)})
+			}
+		}
+		deadLC := &ListenerConfig{ProxyConfig: &ProxyConfig{Target: deadURL, ProxyFailedRequests: true}}
+		deadH := newMultiEpochHandler(worlds[1].multi, deadLC)
+		proxyCase := func(wname string, h func(*fasthttp.RequestCtx), body, up string) {
+			var pan interface{}
+			var stack string
+			func() {
+				defer func() {
+					if r := recover(); r != nil {
+						pan, stack = r, string(debug.Stack())
+					}
+				}()
+				vkHTTPRaw(h, "POST", "/", []byte(body), -1)
+			}()
+			R.Case(true, "")
+			R.Add("proxy_world_requests", 1)
+			if pan != nil {
+				site := c08PanicSite(stack)
+				R.Violation(fmt.Sprintf("C08|panic|http-proxy|%s|%s", site, c08PanicClass(pan)),
+					fmt.Sprintf("[%s, upstream answers %s] POST / panicked: %v (body %q)", wname, up, pan, body),
+					map[string]interface{}{"kind": "http-proxy", "world": wname, "upstream": up, "body": body})
+				R.Outcome("panic:" + site)
+			}
+		}
+		if vkit.Mine(caseIdx) { // the upstream's answer is a shared variable: this section runs on one worker
+			for ai, a := range upstreamAnswers {
+				umu.Lock()
+				cur = ai
+				umu.Unlock()
+				for _, pw := range pws {
+					for _, b := range bodies {
+						proxyCase(pw.name, pw.h, b, a.name)
+					}
+				}
+			}
+			for _, b := range bodies {
+				proxyCase("1-epoch+proxy(unreachable)", deadH, b, "unreachable")
+			}
+		}
+		caseIdx++
+		upstream.Close()
+		R.Bounds["proxy_upstream_answers"] = len(upstreamAnswers) + 1
+		R.Bounds["proxy_request_bodies"] = len(bodies)
 	}
 	R.Bounds["cases_total_per_world"] = caseIdx / 3
 	R.Sample(map[string]interface{}{"a_json_rpc_body": valid, "an_option_object": optObjs[len(optObjs)/2], "worlds": []string{"0-epochs", "1-epoch+gsfa", "2-epochs"}})
